@@ -1,8 +1,10 @@
-"""K64  Executor::castResult (lib/programmemory.cpp): the value of a cast when an expression is evaluated under a program memory.
+"""K64  convertToType (lib/programmemory.cpp): the value of a cast, and of an initialised variable, when an expression is
+evaluated under a program memory.
 
 The program-memory executor evaluates right-hand sides of assignments and conditions with the tracked values of variables
-(ValueFlowAnalyzer::evaluateInt, conditionIsTrue / conditionIsFalse).  A cast used to be evaluated as its operand; the
-value of `(char)v` for v == 1000 was 1000.
+(ValueFlowAnalyzer::evaluateInt, conditionIsTrue / conditionIsFalse).  A cast used to be evaluated as its operand (the
+value of `(char)v` for v == 1000 was 1000) and a variable got the unconverted value of its initialiser (`signed char v = 255`
+was 255).  Both call convertToType now; the two call sites are pinned by text.
 Contract (C01 / C10, C11 6.3.1.2 + 6.3.1.3): a known / possible integer value cast to an integer type is the converted
 value - 0 / 1 for bool, otherwise the value reduced to the width of the type with its signedness (plain char: the platform's
 default sign); impossible values, non-integer values and other target types are returned unchanged.
@@ -80,12 +82,11 @@ def build(ctx):
     kb = KernelBuild(ID, TITLE)
     enums, _ = _common.valuetype_enums()
     trunc, n = k01_truncate.truncate_with_contract(kb, ID)
-    f = extract.locate_function("lib/programmemory.cpp", r'^\s*ValueFlow::Value castResult\(const Token\* cast, ValueFlow::Value v\) const')
-    kb.add_located("Executor::castResult", f)
+    f = extract.locate_function("lib/programmemory.cpp", r'^static ValueFlow::Value convertToType\(const ValueType\* vt, ValueFlow::Value v, const Settings& settings\)')
+    kb.add_located("convertToType", f)
     t, k = located_rules(f, _common.VT_RULES + [
-        (r'^\s*ValueFlow::Value castResult\(const Token\* cast, ValueFlow::Value v\) const',
+        (r'^static ValueFlow::Value convertToType\(const ValueType\* vt, ValueFlow::Value v, const Settings& settings\)',
          'static bigint castResult(bigint v_intvalue, _Bool v_isint, _Bool v_impossible, _Bool has_vt, _Bool vt_integral, int vt_pointer, enum VType vt_type, enum Sign vt_sign, size_t vt_size, char defaultSign)', 1, 1),
-        (r'const ValueType\s*\*\s*vt = cast->valueType\(\)\s*;', '', 1, 1),
         (r'!v\.isIntValue\(\)', '!v_isint', 1, 1),
         (r'\bv\.isImpossible\(\)', 'v_impossible', 1, 1),
         (r'!vt \|\|', '!has_vt ||', 1, 1),
@@ -99,6 +100,11 @@ def build(ctx):
     ], ID); n += k
     if re.search(r'\bvt\b|\bv\.|settings|ValueFlow|cast->', extract.mask(t)):
         raise extract.ExtractError("K64: castResult not fully lowered: %r" % re.findall(r'[^\n]*(?:\bvt\b|\bv\.|settings|ValueFlow|cast->)[^\n]*', extract.mask(t))[:3])
+    whole = extract.strip_comments(extract.read("lib/programmemory.cpp"))
+    if len(re.findall(r'return convertToType\(expr->valueType\(\), execute\(expr->astOperand[12]\(\)\), settings\)\s*;', whole)) != 2:
+        raise extract.ExtractError("programmemory.cpp: the cast branch of the executor no longer converts both forms of a cast with convertToType")
+    if len(re.findall(r'pm\.setValue\(vartok, convertToType\(vartok->valueType\(\), execute\(valuetok, local, settings\), settings\)\)\s*;', whole)) != 1:
+        raise extract.ExtractError("programmemory.cpp: fillProgramMemoryFromAssignments no longer stores the converted value of the initialiser")
     kb.rules_fired = n
     text = _common.BASE + enums + trunc + extract.strip_comments(t) + "\n"
     extract.residue_scan(text, ID)
